@@ -574,6 +574,16 @@ impl Gen for ChainErr {
         }
         ChainErr::new(&msgs)
     }
+    /// chains of every depth 0..=4 (top error + that many causes)
+    fn extremes(p: &mut Pool) -> Vec<ChainErr> {
+        (0..5usize).map(|depth| {
+            let mut msgs = vec![format!("outer {}", p.pick(UNIS))];
+            for d in 0..depth {
+                msgs.push(format!("cause {d} {}", p.pick(STRS)));
+            }
+            ChainErr::new(&msgs)
+        }).collect()
+    }
 }
 #[derive(Clone)]
 struct DisplayOnly(String);
@@ -739,6 +749,9 @@ macro_rules! wrapped_sites {
     ($reg:ident, $mode:literal, $class:literal, $ty:ty, [$($attr:tt)*], $tpl:tt, |$o:ident| $e:expr, |$x:ident, $exp:ident| $fill:block, $pull:expr) => {
         site!(@core $reg, $mode, $class, "key_first", $ty, "re named", |$o| { let props = emit::props! { #[emit::key("re named")] $($attr)* k: $e }; } => &props, |$x, $exp| $fill, $pull);
         site!(@core $reg, $mode, $class, "key_last", $ty, "re named", |$o| { let props = emit::props! { $($attr)* #[emit::key("re named")] k: $e }; } => &props, |$x, $exp| $fill, $pull);
+        // attribute order: a true cfg before / after the capture attribute
+        site!(@core $reg, $mode, $class, "cfg_first", $ty, "k", |$o| { let props = emit::props! { #[cfg(all())] $($attr)* k: $e }; } => &props, |$x, $exp| $fill, $pull);
+        site!(@core $reg, $mode, $class, "cfg_last", $ty, "k", |$o| { let props = emit::props! { $($attr)* #[cfg(all())] k: $e }; } => &props, |$x, $exp| $fill, $pull);
         site!(@core $reg, $mode, $class, "evt_prop", $ty, "k", |$o| { let evt = emit::evt!("t", $($attr)* k: $e); } => evt.props(), |$x, $exp| $fill, $pull);
         site!(@core $reg, $mode, $class, "evt_hole", $ty, "k", |$o| { let k = $e; let evt = emit::evt!($tpl); } => evt.props(), |$x, $exp| $fill, $pull);
     };
@@ -978,6 +991,28 @@ fn sites() -> Vec<Site> {
     site!(reg, "as_debug", "debug_only", DebugOnly, [#[emit::as_debug]], k, |o| o, |x, exp| { exp.debug = Some(format!("{:?}", x)); exp.fdebug = Some(fmt_debug_all(x)); }, no_pull);
     site!(reg, "as_debug_inspect", "debug_only", DebugOnly, [#[emit::as_debug(inspect: true)]], k, |o| o, |x, exp| { exp.debug = Some(format!("{:?}", x)); exp.fdebug = Some(fmt_debug_all(x)); }, no_pull);
 
+    // attribute order around #[emit::optional]: a true cfg between optional and the mode, and after both
+    macro_rules! opt_cfg_sites {
+        ($mode:literal, $class:literal, $ty:ty, [$($attr:tt)*], |$x:ident, $exp:ident| $fill:block, $pull:expr) => {
+            site!(@core reg, $mode, $class, "cfg_between", $ty, "k", |o| { let props = emit::props! { #[emit::optional] #[cfg(all())] $($attr)* k: Some(o) }; } => &props, |$x, $exp| $fill, $pull);
+            site!(@core reg, $mode, $class, "cfg_last", $ty, "k", |o| { let props = emit::props! { #[emit::optional] $($attr)* #[cfg(all())] k: Some(o) }; } => &props, |$x, $exp| $fill, $pull);
+        };
+    }
+    macro_rules! opt_cfg_prim {
+        ($class:literal, $ty:ty, $pull:expr, |$px:ident| $pexp:expr) => {
+            opt_cfg_sites!("optional_default", $class, $ty, [], |x, exp| { let $px = x; exp.pull = Some($pexp); }, $pull);
+            opt_cfg_sites!("optional_as_value", $class, $ty, [#[emit::as_value]], |x, exp| { let $px = x; exp.pull = Some($pexp); }, $pull);
+            opt_cfg_sites!("optional_as_debug", $class, $ty, [#[emit::as_debug]], |x, exp| { exp.debug = Some(format!("{:?}", x)); exp.fdebug = Some(fmt_debug_all(x)); exp.text = Some(format!("{}", x)); exp.ftext = Some(fmt_display_all(x)); }, no_pull);
+            opt_cfg_sites!("optional_as_sval", $class, $ty, [#[emit::as_sval]], |x, exp| { exp.serde = serde_json::to_string(x).ok(); exp.sval = sval_json::stream_to_string(x).ok(); }, no_pull);
+            opt_cfg_sites!("optional_as_serde", $class, $ty, [#[emit::as_serde]], |x, exp| { exp.serde = serde_json::to_string(x).ok(); exp.sval = sval_json::stream_to_string(x).ok(); }, no_pull);
+        };
+    }
+    opt_cfg_prim!("int", i32, |v: emit::Value| v.cast::<i32>().map(|x| format!("{x:?}")), |x| format!("{x:?}"));
+    opt_cfg_prim!("string", String, |v: emit::Value| v.cast::<Cow<str>>().map(|x| format!("{:?}", &*x)), |x| format!("{:?}", &x[..]));
+    opt_cfg_sites!("optional_as_debug", "struct", Rec, [#[emit::as_debug]], |x, exp| { exp.debug = Some(format!("{:?}", x)); exp.fdebug = Some(fmt_debug_all(x)); }, no_pull);
+    opt_cfg_sites!("optional_as_sval", "struct", Rec, [#[emit::as_sval]], |x, exp| { exp.serde = serde_json::to_string(x).ok(); exp.sval = sval_json::stream_to_string(x).ok(); }, no_pull);
+    opt_cfg_sites!("optional_as_serde", "struct", Rec, [#[emit::as_serde]], |x, exp| { exp.serde = serde_json::to_string(x).ok(); exp.sval = sval_json::stream_to_string(x).ok(); }, no_pull);
+
     // no macro: hand-built properties through the conversion API (Value::from / to_value)
     macro_rules! from_site {
         ($class:literal, $ty:ty, |$o:ident| $e:expr, |$x:ident, $exp:ident| $fill:block, $pull:expr) => {
@@ -1101,7 +1136,20 @@ fn check(promise: &[String], r: &SiteResult, reader: &str, direct: bool, fams: &
                 }
                 continue;
             }
-            "chain" => (r.exp.chain.is_some() && obs.chain == r.exp.chain, json!(r.exp.chain), json!(obs.chain)),
+            // the chain itself, and what the value's Display shows of it: the top error alone, or the top
+            // error followed by the ROOT cause (the last link) in parentheses - never another link
+            "chain" => {
+                let same = r.exp.chain.is_some() && obs.chain == r.exp.chain;
+                let shown = match &r.exp.chain {
+                    Some(c) if !c.is_empty() => obs.display == c[0] || (c.len() > 1 && obs.display == format!("{} ({})", c[0], c[c.len() - 1])),
+                    _ => true,
+                };
+                if same && !shown {
+                    (false, json!({"display": "top error, or top (root cause)", "chain": r.exp.chain}), json!(obs.display))
+                } else {
+                    (same, json!(r.exp.chain), json!(obs.chain))
+                }
+            }
             "text_stable" => {
                 let plain = r.base_display.is_some() && Some(&obs.display) == r.base_display.as_ref();
                 let (bd, bg) = (r.base_fdisplay.clone().unwrap_or_default(), r.base_fdebug.clone().unwrap_or_default());
